@@ -50,7 +50,7 @@ class Resolver:
     def __init__(self, prog):
         self.prog = prog
         self.ctor = {}           # fn id -> {"crop_box": expr over params, ..}
-        adt = [k for k in prog.adts if k.endswith("crop_box::CroppedSrcImageView")]
+        adt = prog.adt_ids("CroppedSrcImageView")
         if adt:
             fields = [x[0] for x in prog.adts[adt[0]]["variants"][0]["fields"]]
             for f in prog.fns.values():
